@@ -303,7 +303,7 @@ let dispatch (f : string) (args : sx list) : sx =
   | "h_opentag", [t; L atts; b] -> sx_of_str (Html.h_opentag (str_of_sx t) (SL.map (function L [k; v] -> (str_of_sx k, str_of_sx v) | _ -> failwith "att") atts) (int_of_sx b <> 0))
   | "h_closetag", [t; b] -> sx_of_str (Html.h_closetag (str_of_sx t) (int_of_sx b <> 0))
   | "h_emptytag", [t; L atts] -> sx_of_str (Html.h_emptytag (str_of_sx t) (SL.map (function L [k; v] -> (str_of_sx k, str_of_sx v) | _ -> failwith "att") atts))
-  | "fix_part", [v] -> let s = str_of_sx v in L [sx_of_str (FixPart.fix_part s); sx_of_nat (FixPart.root_start s); sx_of_nat (FixPart.root_begin s); sx_of_nat (FixPart.root_stop s)]
+  | "fix_part", [v] -> let s = str_of_sx v in L [sx_of_str (FixPart.fix_part s); sx_of_nat (FixPart.root_start s); sx_of_nat (FixPart.root_begin s); sx_of_nat (FixPart.root_stop s); sx_of_bool (FixPart.is_odf_part s)]
   | "h_doc", [L evs] ->
       let atts l = SL.map (function L [k; v] -> (str_of_sx k, str_of_sx v) | _ -> failwith "att") l in
       let ev = function
